@@ -23,7 +23,7 @@ func init() {
 			ruleP6b(c)
 			ruleO1(c)
 		},
-		explanation: "Decides the launch structure for pre-installed plugins: an entry of the plugin directory is only added to the discovery result after it was found not to be a directory, to have an execute bit, and to parse as idx-name (the three result lists grow together, from that parse); the child's environment is a fresh list of exactly three NAME=value strings whose names are the constants the stub reads with os.Getenv, carrying the plugin's base name, its index and the descriptor number 3, and the child gets exactly one extra file, the peer end of the socket pair, which is what descriptor 3 is; the socket pair is created close-on-exec on every build variant; the drop-in configuration candidates are idx-name.conf then name.conf, first readable wins and a read error other than not-exist is returned; a plugin that fails to launch, start or synchronize is skipped with continue (and stopped) without affecting the others, and the list is sorted by index; stop kills and reaps the process, and every plugin dropped from the list is stopped.",
+		explanation: "Decides the launch structure for pre-installed plugins: an entry of the plugin directory is only added to the discovery result after it was found not to be a directory, to have an execute bit, and to parse as idx-name (the three result lists grow together, from that parse); the child's environment is a fresh list of exactly three NAME=value strings whose names are the constants the stub reads with os.Getenv, carrying the plugin's base name, its index and the descriptor number 3, and the child gets exactly one extra file, the peer end of the socket pair, which is what descriptor 3 is; the socket pair is created close-on-exec on every build variant; the drop-in configuration candidates are idx-name.conf then name.conf, first readable wins and a read error other than not-exist is returned; a plugin that fails to launch, start or synchronize is skipped with continue (and stopped) without affecting the others, and the list is sorted by index; stop kills and reaps the process, and every plugin dropped from the list is stopped. stopPlugins stops every plugin of the list unconditionally.",
 		notDecided: []string{
 			"what the kernel and os/exec do with descriptors",
 			"the process table (that Kill/Wait succeed)",
